@@ -17,7 +17,7 @@ m = {
  "engines": [{"name": "govc", "path": "/verif/engine", "serves_properties": sorted(CLAIMED),
               "kind_free_text": "contract-based deductive verifier for Go written for this task: contracts as //@ comments keyed by function name, verification conditions generated from go/ssa (x/tools v0.29.0) of /repo's current working tree on every run, discharged by z3 5.1.0 / z3 4.8.12 / cvc5 1.0.3; must-fail canary corpus and replay of failed obligations against the real code via go test -overlay"}],
  "checks": [], "not_applicable": [],
- "notes": "quick = every obligation of the property with a 10 s per-obligation solver budget; thorough = 60 s budget, every unsat confirmed by a second solver, plus the must-fail canary corpus of the property (a canary that is not detected makes the run exit 2 = broken check, never a VIOLATION)."
+ "notes": "quick = every obligation of the property with a 30 s per-obligation solver budget (vacuity probes 6 s) and the bounded stand-ins at their quick bound; thorough = 90 s budget, every unsat confirmed by a second solver, bounded stand-ins at their thorough bound, plus the must-fail canary corpus of the property (a canary that is not handled as expected makes the run exit 2 = broken check, never a VIOLATION). Exit 0 = held (KNOWN-FINDING lines for listed open findings), 1 = VIOLATION, 2 = the check itself is broken."
 }
 for p in props:
     i = p['id']
@@ -25,11 +25,11 @@ for p in props:
         c = CLAIMED[i]
         m["checks"].append({
             "property_id": i,
-            "quick_cmd": f"./bin/govc check -property {i} -tier quick",
-            "thorough_cmd": f"./bin/govc check -property {i} -tier thorough",
+            "quick_cmd": f"cd /verif && ./bin/govc check -property {i} -tier quick",
+            "thorough_cmd": f"cd /verif && ./bin/govc check -property {i} -tier thorough",
             "evidence_file": f"/verif/evidence/{i}.json",
             "engine": "govc",
-            "replay_cmd_template": "./bin/govc replay -match {path}",
+            "replay_cmd_template": "cd /verif && ./bin/govc replay -match {path}",
             "level_claimed": {"category": "proof", "text": c["text"], "design_ref": c.get("ref", "DESIGN.md section 7 / " + i)},
             "level_note": c["note"],
             "technique": "contract-based deductive verification of the real code (function contracts, VCs over go/ssa, SMT)"})
